@@ -10,10 +10,12 @@ EXPLANATION = ("Static rules over quinn-udp / quinn MIR (Linux x86-64 build): (a
                "segment_size < len, independent of the einval fallback flag; ECN / source address control messages carry the transmit's values in the right fields; the "
                "receive stride defaults to len and is overridden only by UDP_GRO; (e) offload degradation: EIO/EINVAL stores max_gso_segments = 1 and, the first time, "
                "re-prepares the message and retries; Interrupted loops, WouldBlock is returned; (f) batch splitting in the async endpoint by meta.len / meta.stride and "
-               "field-for-field Transmit conversion. Kernel behaviour and non-Linux back ends are NOT decided.")
+               "field-for-field Transmit conversion; (g) the socket-wide UDP_SEGMENT option set by the GSO support probe is set back to 0 on every successful path, so that transmits "
+               "without an UDP_SEGMENT control message stay single datagrams. Kernel behaviour and non-Linux back ends are NOT decided.")
 RULE = "rule instances = (rule, site) pairs over MIR call sites / stores / paths; non-trivial = bound to a real site"
 NOTE = ("Trusted: rustc MIR, the fact extractor incl. layout sizes of generic arguments, the Linux CMSG_ALIGN formula (16-byte cmsghdr, 8-byte alignment) and the table of "
-        "payload sizes the kernel attaches for each enabled receive option. Only the cfg(linux) x86-64 build is analysed.")
+        "payload sizes / payload types the kernel attaches for each enabled receive option, the Linux numeric values of the (cmsg_level, cmsg_type) pairs and of EIO / EINVAL "
+        "(match patterns are integers in MIR) and the io::ErrorKind discriminants of the pinned nightly std. Only the cfg(linux) x86-64 build is analysed.")
 
 
 def cmsg_space(n):
@@ -39,6 +41,56 @@ def _name(d):
         if x[0] == 'const' and x[3]:
             return x[3].split('::')[-1]
     return D.render(d)
+
+
+def _is_call(x, *names):
+    """the descriptor IS the result of a call of one of `names` (not merely mentions it)"""
+    return isinstance(x, tuple) and x and x[0] == 'call' and any(x[1] == n or path_matches(x[2], n) or D._trait_form(x[1]) == n for n in names)
+
+
+def _self_field(x, name):
+    """`self.<name>` (field of the first parameter; refs / derefs / casts are erased by the describer)"""
+    return isinstance(x, tuple) and x[0] == 'field' and x[2] == name and x[1][0] == 'param' and x[1][1] == 1
+
+
+def _bin(x, op):
+    """operands of a `bin op` node, else None"""
+    return (x[2], x[3]) if isinstance(x, tuple) and x and x[0] == 'bin' and x[1] == op else None
+
+
+def _stores_of(body, field):
+    """(bb, idx, rvalue) of live assignments to a place going through `.field`"""
+    live = body.live_blocks()
+    return [(i, j, rv) for i, j, pl, rv, line in body.assigns() if i in live and any(isinstance(e, list) and e[0] == 'f' and e[1] == field for e in pl[1])]
+
+
+def _feasible(F, body):
+    """blocks reachable from the entry when a SwitchInt on a literal constant (`cfg!(..)`) only takes its matching edge"""
+    brs = {br.bb: br for br in branches(F, body)}
+    seen, stack = set(), [0]
+    while stack:
+        b = stack.pop()
+        if b in seen:
+            continue
+        seen.add(b)
+        br = brs.get(b)
+        if br is not None and br.desc[0] == 'const' and br.desc[1] == 'int' and not br.desc[3] and str(br.desc[2]).lstrip('-').isdigit():
+            stack.append(br.target(int(br.desc[2])))
+        else:
+            stack.extend(body.succ[b])
+    return seen
+
+
+def _switch_values(F, body, pred, site_bb):
+    """explicit SwitchInt values v (None = otherwise) of branches whose discriminant satisfies pred and from whose v-edge
+    site_bb is reachable without re-evaluating the branch"""
+    out = set()
+    for br in branches(F, body):
+        if pred(br.desc):
+            for v, t in br.edges:
+                if site_bb in body.reachable_from(t, avoid=[br.bb]):
+                    out.add(v)
+    return out
 
 
 def rule_a(ctx):
@@ -96,27 +148,86 @@ def rule_a(ctx):
     ctx.check(worst_r <= LEN, 'a', 'recv_control_buffer_too_small', 'quinn_udp::cmsg::LEN', ns.where(), 'receive control messages need at most %d (v4 %d, v6 %d, v4-mapped %d) <= cmsg::LEN = %d' % (worst_r, fam['v4'], fam['v6'], fam['mapped'], LEN),
               'the control messages the kernel attaches to one received datagram need up to %d bytes (v4 %d, v6 %d, v4-mapped %d) but the buffer is cmsg::LEN = %d: trailing messages (ECN / GRO size) are truncated' % (worst_r, fam['v4'], fam['v6'], fam['mapped'], LEN))
     # Encoder::push itself checks the remaining space (assert) — keep it
-    ep = [b for b in F.fns('Encoder::push') if b.crate == 'quinn_udp']
-    ok = bool(ep) and any(any(D.has_call(br.desc, 'MsgHdr::control_len') for br in branches(F, b)) for b in ep)
-    ctx.check(ok, 'a', 'encoder_checks_remaining_space', ep[0] if ep else 'Encoder::push', ep[0].where() if ep else '', 'assert!(control_len >= len + space)', 'Encoder::push no longer checks the remaining control space')
+    _encoder_guard(ctx)
+
+
+def _encoder_guard(ctx):
+    """`assert!(control_len() >= self.len + space)`: on the edge where control_len < self.len + space (space = the very
+    amount later added to self.len, = cmsg_space(size_of_val(value))) neither the header / payload write nor the
+    `self.len += space` store is reachable."""
+    F = ctx.facts
+    ep = [b for b in F.fns('Encoder::push') if b.crate == 'quinn_udp' and b.kind == 'fn']
+    if len(ep) != 1:
+        ctx.bad('a', 'encoder_checks_remaining_space', 'Encoder::push', '', 'Encoder::push not found (%d)' % len(ep))
+        return
+    b = ep[0]
+    d = describer(F, b)
+    incs, len_blocks = [], set()
+    for i, j, rv in _stores_of(b, 'len'):
+        len_blocks.add(i)
+        ops = _bin(d.rvalue(rv, i, j, 0), 'Add')
+        if ops:
+            for x, y in (ops, ops[::-1]):
+                if _self_field(x, 'len') and _is_call(y, 'CMsgHdr::cmsg_space') and D.has_param(y, name='value') and not D.const_offsets(y):
+                    incs.append(y)
+    writes = {c.bb for c in b.calls_to('ptr::write', 'ptr::write_unaligned', 'CMsgHdr::set')}
+
+    def need(x):        # self.len + space
+        ops = _bin(x, 'Add')
+        return bool(ops) and any(_self_field(p, 'len') and q in incs for p, q in (ops, ops[::-1]))
+
+    def avail(x):
+        return _is_call(x, 'MsgHdr::control_len') and _self_field(x[3][0], 'hdr')
+
+    def violating(op, a, c):
+        if op != 'Lt':
+            return False
+        if avail(a) and need(c):                                 # control_len < len + space
+            return True
+        ops = _bin(a, 'Sub')                                     # control_len - len < space
+        return bool(ops) and avail(ops[0]) and _self_field(ops[1], 'len') and c in incs
+    if not incs or not writes:
+        ctx.bad('a', 'encoder_checks_remaining_space', b, b.where(), 'Encoder::push no longer advances self.len by cmsg_space(size_of_val(value)) / writes the message: the remaining-space check cannot be bound')
+        return
+    guard_protects(ctx, 'a', 'encoder_checks_remaining_space', b, violating, sorted(writes | len_blocks), what='assert!(control_len >= self.len + space)')
+
+
+def _is_ctrl_buf(x):
+    """the control buffer itself: the `ctrl` parameter or its only field `ctrl.0` (references are erased)"""
+    if isinstance(x, tuple) and x[0] == 'field' and x[2] == '0':
+        x = x[1]
+    return isinstance(x, tuple) and x[0] == 'param' and x[2] == 'ctrl'
 
 
 def rule_b(ctx):
     F = ctx.facts
+    LEN = F.const_int('quinn_udp::cmsg::LEN')
+
+    def is_len(v):
+        # the value IS cmsg::LEN (casts erased) — or the size of the buffer itself; `LEN + 64`, `2 * LEN` are not
+        if v[0] == 'const':
+            return v[1] == 'int' and str(v[2]) == str(LEN) and (v[3] == 'LEN' or v[3].endswith('::LEN'))
+        return _is_call(v, '[T]::len', 'mem::size_of_val') and len(v[3]) == 1 and _is_ctrl_buf(v[3][0])
+
+    def is_buf_ptr(v):
+        # the value IS the address of the buffer: ctrl.0.as_mut_ptr() / &mut ctrl.0 as *mut _ ; no pointer arithmetic around it
+        if _is_ctrl_buf(v):
+            return True
+        return v[0] == 'call' and v[1].rsplit('::', 1)[-1] in ('as_mut_ptr', 'as_ptr') and len(v[3]) == 1 and _is_ctrl_buf(v[3][0])
     for fn in ('prepare_msg', 'prepare_recv'):
         b = ctx.ufn(fn)
-        st = [(i, j, rv) for i, j, pl, rv, line in b.assigns() if any(isinstance(e, list) and e[0] == 'f' and e[1] == 'msg_controllen' for e in pl[1])]
         d = describer(F, b)
-        ok = bool(st) and all(D.has_const(d.rvalue(rv, i, j, 0), named='LEN') for i, j, rv in st)
-        ctx.check(ok, 'b', 'controllen_is_buffer_length_' + fn, b, b.where(), 'msg_controllen = cmsg::LEN', '%s announces a control length other than cmsg::LEN' % fn)
-        ctrl = [l for l, (ty, nm) in enumerate(b.locals) if nm == 'ctrl']
-        okc = bool(ctrl) and 'Aligned' in b.locals[ctrl[0]][0] and ('LEN' in b.locals[ctrl[0]][0] or str(F.const_int('quinn_udp::cmsg::LEN')) in b.locals[ctrl[0]][0])
+        st = _stores_of(b, 'msg_controllen')
+        ok = bool(st) and all(is_len(d.rvalue(rv, i, j, 0)) for i, j, rv in st)
+        ctx.check(ok, 'b', 'controllen_is_buffer_length_' + fn, b, b.where(), 'msg_controllen = cmsg::LEN', '%s announces a control length other than cmsg::LEN: %s' % (fn, [D.render(d.rvalue(rv, i, j, 0))[:60] for i, j, rv in st]))
+        ctrl = [l for l, (ty, nm) in enumerate(b.locals) if nm == 'ctrl' and 1 <= l <= b.argc]
+        okc = bool(ctrl) and 'Aligned' in b.locals[ctrl[0]][0] and ('LEN' in b.locals[ctrl[0]][0] or str(LEN) in b.locals[ctrl[0]][0])
         ctx.check(okc, 'b', 'control_buffer_type_' + fn, b, b.where(), b.locals[ctrl[0]][0] if ctrl else '', 'the control buffer of %s is not Aligned<[u8; LEN]>' % fn)
-        mc = [(i, j, rv) for i, j, pl, rv, line in b.assigns() if any(isinstance(e, list) and e[0] == 'f' and e[1] == 'msg_control' for e in pl[1])]
-        okp = bool(mc) and all(D.has_param(d.rvalue(rv, i, j, 0), name='ctrl') for i, j, rv in mc)
-        ctx.check(okp, 'b', 'control_pointer_is_the_buffer_' + fn, b, b.where(), 'msg_control = ctrl.0.as_mut_ptr()', 'msg_control does not point at the control buffer')
-        il = [(i, j, rv) for i, j, pl, rv, line in b.assigns() if any(isinstance(e, list) and e[0] == 'f' and e[1] == 'msg_iovlen' for e in pl[1])]
-        ctx.check(bool(il) and all(D.has_const(d.rvalue(rv, i, j, 0), 1) for i, j, rv in il), 'b', 'single_iovec_' + fn, b, b.where(), 'msg_iovlen = 1', 'msg_iovlen is not 1')
+        mc = _stores_of(b, 'msg_control')
+        okp = bool(mc) and all(is_buf_ptr(d.rvalue(rv, i, j, 0)) for i, j, rv in mc)
+        ctx.check(okp, 'b', 'control_pointer_is_the_buffer_' + fn, b, b.where(), 'msg_control = ctrl.0.as_mut_ptr()', 'msg_control does not point at the start of the control buffer: %s' % [D.render(d.rvalue(rv, i, j, 0))[:80] for i, j, rv in mc])
+        il = _stores_of(b, 'msg_iovlen')
+        ctx.check(bool(il) and all(d.rvalue(rv, i, j, 0)[:3] == ('const', 'int', '1') for i, j, rv in il), 'b', 'single_iovec_' + fn, b, b.where(), 'msg_iovlen = 1', 'msg_iovlen is not 1')
     al = F.adt('cmsg::imp::Aligned') if [1 for p in F.adts if p.endswith('imp::Aligned')] else F.adt('Aligned')
     ctx.check(al['align'] >= 8, 'b', 'control_buffer_alignment', 'Aligned', '', 'repr(align(%d))' % al['align'], 'Aligned<T> alignment %d is below that of cmsghdr' % al['align'])
 
@@ -129,32 +240,155 @@ def rule_c(ctx):
     ok = bool(new) and bool(fin) and all(path_avoiding(pm, pm.succ[n.bb], pm.return_blocks(), {f.bb for f in fin}) is None for n in new)
     ctx.check(ok, 'c', 'encoder_always_finished', pm, pm.where(), 'Encoder::new is followed by finish() on every path', 'prepare_msg can return without finishing the control message encoder (msg_controllen stays LEN)')
     dr = [b for b in F.fns('<Encoder as Drop>::drop') if b.crate == 'quinn_udp']
-    ctx.check(bool(dr) and any(c.is_('MsgHdr::set_control_len') for b in dr for c in b.calls()), 'c', 'finish_sets_control_len', dr[0] if dr else 'Encoder', dr[0].where() if dr else '', 'Drop sets msg_controllen = len', 'finishing the encoder no longer records the used control length')
+    sc = [c for b in dr for c in b.calls_to('MsgHdr::set_control_len')]
+    ok = bool(sc) and all(_self_field(arg_desc(F, c, 0), 'hdr') and _self_field(arg_desc(F, c, 1), 'len') for c in sc)
+    ok = ok and all(path_avoiding(b, [0], b.return_blocks(), {c.bb for c in sc if c.body.id == b.id}) is None for b in dr)
+    ctx.check(ok, 'c', 'finish_sets_control_len', dr[0] if dr else 'Encoder', dr[0].where() if dr else '', 'Drop: hdr.set_control_len(self.len)',
+              'finishing the encoder no longer records the used control length (self.len): %s' % [D.render(arg_desc(F, c, 1))[:60] for c in sc])
+    _decode_arms(ctx)
+
+
+# Linux ABI values of the (cmsg_level, cmsg_type) pairs quinn-udp decodes (patterns are lowered to integers in MIR), with the
+# payload type the kernel attaches (ip(7), ipv6(7), udp(7), socket(7))
+DECODE_ARMS = {
+    (0, 1): ('IPPROTO_IP/IP_TOS', 'u8'),
+    (0, 13): ('IPPROTO_IP/IP_RECVTOS', 'u8'),
+    (41, 67): ('IPPROTO_IPV6/IPV6_TCLASS', 'i32'),
+    (0, 8): ('IPPROTO_IP/IP_PKTINFO', 'libc::in_pktinfo'),
+    (41, 50): ('IPPROTO_IPV6/IPV6_PKTINFO', 'libc::in6_pktinfo'),
+    (17, 104): ('SOL_UDP/UDP_GRO', 'i32'),
+    (1, 35): ('SOL_SOCKET/SCM_TIMESTAMPNS', 'libc::timespec'),
+}
+ECN_ARMS = ((0, 1), (0, 13), (41, 67))
+GRO_ARM = (17, 104)
+
+
+def _decode_arms(ctx):
+    """every cmsg::decode::<T> site of ControlMetadata::decode is bound to the (level, type) arm it sits in (the SwitchInt
+    values on cmsg.cmsg_level / cmsg.cmsg_type leading to it; arms behind a literal-false `cfg!()` are infeasible) and T is
+    the kernel's payload type of that message; ecn_bits / stride are stored from the sites of their own arms only."""
+    F = ctx.facts
     dec = ctx.ufn('ControlMetadata::decode')
-    table = {'IP_TOS': 'u8', 'IP_RECVTOS': 'u8', 'IPV6_TCLASS': 'i32', 'IP_PKTINFO': 'libc::in_pktinfo', 'IPV6_PKTINFO': 'libc::in6_pktinfo', 'UDP_GRO': 'i32', 'SCM_TIMESTAMPNS': 'libc::timespec'}
-    calls = dec.calls_to('cmsg::decode')
-    tys = sorted({c.ga[0] for c in calls})
-    ctx.check(set(tys) >= {'u8', 'i32', 'libc::in_pktinfo', 'libc::in6_pktinfo', 'libc::timespec'}, 'c', 'decode_types', dec, dec.where(), str(tys), 'cmsg::decode is used with an unexpected set of payload types: %s' % tys)
-    ctx.floor('c', 'decode_sites', len(calls), 6)
-    # each decode::<T> arm is selected by (level, type): the GRO arm decodes c_int into stride
-    st = [(i, j, rv) for i, j, pl, rv, line in dec.assigns() if any(isinstance(e, list) and e[0] == 'f' and e[1] == 'stride' for e in pl[1])]
     d = describer(F, dec)
-    ok = bool(st) and all(any(x[0] == 'call' and x[1].endswith('decode') for x in walk(d.rvalue(rv, i, j, 0))) for i, j, rv in st)
-    ctx.check(ok, 'c', 'stride_from_gro_message', dec, dec.where(), 'stride = decode::<c_int>(UDP_GRO cmsg)', 'stride is not taken from the UDP_GRO control message')
-    eb = [(i, j, rv) for i, j, pl, rv, line in dec.assigns() if any(isinstance(e, list) and e[0] == 'f' and e[1] == 'ecn_bits' for e in pl[1])]
-    ctx.check(len(eb) >= 3, 'c', 'ecn_bits_from_tos_messages', dec, dec.where(), '%d ecn_bits stores (IP_TOS, IP_RECVTOS, IPV6_TCLASS)' % len(eb), 'an ECN-carrying control message is no longer decoded')
+    feas = _feasible(F, dec)
+    calls = [c for c in dec.calls_to('cmsg::decode') if c.bb in feas]
+    ctx.floor('c', 'decode_sites', len(calls), 7)
+
+    def on(field):
+        return lambda x: x[0] == 'field' and x[2] == field and x[1][0] == 'param'
+    arm = {}
+    bad = []
+    for c in calls:
+        lv, ty = _switch_values(F, dec, on('cmsg_level'), c.bb), _switch_values(F, dec, on('cmsg_type'), c.bb)
+        key = (next(iter(lv)), next(iter(ty))) if len(lv) == 1 and len(ty) == 1 else None
+        a0 = arg_desc(F, c, 0)
+        if key not in DECODE_ARMS:
+            bad.append('%s: decode::<%s> under (level, type) = (%s, %s): not a classified control message' % (c.where(), c.ga[0], sorted(lv, key=str), sorted(ty, key=str)))
+        elif c.ga[0] != DECODE_ARMS[key][1]:
+            bad.append('%s: %s decoded as %s, the kernel payload is %s' % (c.where(), DECODE_ARMS[key][0], c.ga[0], DECODE_ARMS[key][1]))
+        elif not (a0[0] == 'param' and a0[2] == 'cmsg'):
+            bad.append('%s: decode is not applied to the control message being dispatched on' % c.where())
+        else:
+            arm.setdefault(key, []).append(c)
+    for key in DECODE_ARMS:
+        if key not in arm and not any(DECODE_ARMS[key][0] in x for x in bad):
+            bad.append('%s is no longer decoded' % DECODE_ARMS[key][0])
+    tys = sorted({c.ga[0] for c in calls})
+    ctx.check(not bad, 'c', 'decode_types', dec, dec.where(), '%d sites, each decode::<T> matches its (level, type) arm: %s' % (len(calls), tys), '; '.join(bad))
+
+    def stored(field, keys, what, inst):
+        sites = [c for k in keys for c in arm.get(k, [])]
+        st = [(i, j, d.rvalue(rv, i, j, 0)) for i, j, rv in _stores_of(dec, field) if i in feas]
+        msgs = []
+        for k in keys:
+            if not arm.get(k):
+                msgs.append('no well-typed decode site in the %s arm' % DECODE_ARMS[k][0])
+        for c in sites:
+            if not any(is_site(v, c) and dec.dominates(c.bb, i) for i, j, v in st):
+                msgs.append('%s: the decoded value is not stored into %s' % (c.where(), field))
+        for i, j, v in st:
+            if not any(is_site(v, c) for c in sites):
+                msgs.append('%s is stored from %s' % (field, D.render(v)[:60]))
+        ctx.check(not msgs and bool(st), 'c', inst, dec, dec.where(), what % len(st), '; '.join(msgs) or 'no store of %s' % field)
+    stored('stride', (GRO_ARM,), '%d stride store(s), from decode::<c_int>(UDP_GRO cmsg)', 'stride_from_gro_message')
+    stored('ecn_bits', ECN_ARMS, '%d ecn_bits stores, one per IP_TOS / IP_RECVTOS / IPV6_TCLASS site', 'ecn_bits_from_tos_messages')
+
+
+def _conveys_ecn(F, v):
+    """the pushed value is transmit.ecn's codepoint: it derives from the `ecn` field of the transmit parameter, without
+    arithmetic, and every closure it goes through returns (a cast of) its own argument"""
+    if not any(x[0] == 'field' and x[2] == 'ecn' and x[1][0] == 'param' and x[1][2] == 'transmit' for x in walk(v)):
+        return False
+    if D.const_offsets(v) or any(x[0] == 'bin' for x in walk(v)):
+        return False
+    for x in walk(v):
+        if x[0] == 'agg' and x[1] == 'closure':
+            cb = [b for b in F.bodies.values() if b.canon == x[2] and b.kind == 'closure']
+            if len(cb) != 1:
+                return False
+            rets = ret_descs(F, cb[0])
+            if not rets:
+                return False
+            for _, rd in rets:
+                for alt in flat(rd):
+                    if not D.has_param(alt, idx=2) or any(y[0] == 'bin' for y in walk(alt)):
+                        return False
+    return True
+
+
+def _effective_segment_size(ctx):
+    """Transmit::effective_segment_size: a branch with the relation contents.len() <= segment_size on one edge, from which
+    every value returned is None, while its other edge returns Some(that segment_size); no Some(..) is produced elsewhere."""
+    F = ctx.facts
+    inst = 'no_segmentation_for_single_segment'
+    ef = [b for b in F.fns('Transmit::effective_segment_size') if b.crate == 'quinn_udp' and b.kind == 'fn']
+    if len(ef) != 1:
+        ctx.bad('d', inst, 'Transmit::effective_segment_size', '', 'effective_segment_size not found (%d)' % len(ef))
+        return
+    b = ef[0]
+    d = describer(F, b)
+    live = b.live_blocks()
+
+    def is_len(x):
+        return _is_call(x, '[T]::len', 'Vec::len', 'Bytes::len') and len(x[3]) == 1 and _self_field(x[3][0], 'contents')
+
+    def is_size(x):     # the payload of self.segment_size (through `?` / if let / unwrap), not an expression over it
+        while x[0] in ('field', 'variant') and not _self_field(x, 'segment_size'):
+            x = x[1]
+        return _self_field(x, 'segment_size')
+    # values assigned to the return place: (block, descriptor)
+    rets = []
+    for df in b.defs_of(0):
+        if df[0] == 'stmt' and df[1] in live:
+            rets.append((df[1], d.rvalue(df[3], df[1], df[2], 0)))
+        elif df[0] == 'call' and df[2].bb in live:
+            rets.append((df[2].bb, d.call_desc(df[2], 0)))
+
+    def is_none(v):
+        return v[0] == 'agg' and v[2].endswith('Option::None')
+
+    def is_some_of(v, size):
+        return v[0] == 'agg' and v[2].endswith('Option::Some') and len(v[3]) == 1 and v[3][0] == size
+    edges = guard_edges(ctx, b, lambda op, a, c: op == 'Le' and is_len(a) and is_size(c))
+    if not edges:
+        ctx.bad('d', inst + '/guard_missing', b, b.where(), 'no branch with the relation contents.len() <= segment_size: segmentation is not suppressed exactly for single-segment transmits')
+        return
+    for br, truth, tgt in edges:
+        size = relation_on(br.desc, truth)[2]
+        other = br.target(0 if truth else 1)
+        r_none = b.reachable_from(tgt, avoid=[br.bb])
+        r_some = b.reachable_from(other, avoid=[br.bb])
+        on_none = [v for bb, v in rets if bb in r_none]
+        on_some = [v for bb, v in rets if bb in r_some]
+        elsewhere = [v for bb, v in rets if bb not in r_some and not is_none(v) and not (v[0] == 'call' and v[1].endswith('from_residual'))]
+        ok = bool(on_none) and all(is_none(v) for v in on_none) and bool(on_some) and all(is_some_of(v, size) for v in on_some) and not elsewhere
+        ctx.check(ok, 'd', inst, b, br.where(), 'contents.len() <= segment_size => None, otherwise Some(segment_size)',
+                  'effective_segment_size: on contents.len() <= segment_size it returns %s, otherwise %s%s' % ([D.render(v)[:40] for v in on_none], [D.render(v)[:40] for v in on_some], ', and elsewhere %s' % [D.render(v)[:40] for v in elsewhere] if elsewhere else ''))
 
 
 def rule_d(ctx):
     F = ctx.facts
-    ef = [b for b in F.fns('Transmit::effective_segment_size') if b.crate == 'quinn_udp']
-    ok = False
-    for b in ef:
-        for br in branches(F, b):
-            rel = relation_on(br.desc, True)
-            if rel and rel[0] in ('Lt', 'Le') and (D.has_field(rel[1], 'contents') or D.has_field(rel[2], 'contents') or 'len' in D.render(br.desc)):
-                ok = True
-    ctx.check(ok, 'd', 'no_segmentation_for_single_segment', ef[0] if ef else 'Transmit', ef[0].where() if ef else '', 'None when segment_size >= contents.len()', 'effective_segment_size no longer suppresses segmentation for single-segment transmits')
+    _effective_segment_size(ctx)
     pm = ctx.ufn('prepare_msg')
     seg = pm.calls_to('gso::set_segment_size')
     ctx.floor('d', 'segment_size_sites', len(seg), 1)
@@ -168,8 +402,11 @@ def rule_d(ctx):
         ctx.check(D.has_call(a, 'Transmit::effective_segment_size'), 'd', 'segment_size_value', pm, c.where(), D.render(a)[:80], 'the segment size pushed is not the transmits effective segment size')
     # ECN pushed from transmit.ecn; in_pktinfo literal
     d = describer(F, pm)
-    ecn = [c for c in pm.calls_to('Encoder::push') if any(x[0] == 'call' and x[1] == 'Option::map_or' for x in walk(arg_desc(F, c, 3))) or D.has_field(arg_desc(F, c, 3), 'ecn')]
-    ctx.check(len(ecn) >= 2, 'd', 'ecn_conveyed_v4_and_v6', pm, pm.where(), '%d ECN pushes (IP_TOS, IPV6_TCLASS)' % len(ecn), 'the ECN codepoint is no longer conveyed for both address families')
+    for lv, ty in (('IPPROTO_IP', 'IP_TOS'), ('IPPROTO_IPV6', 'IPV6_TCLASS')):
+        ps = [c for c in pm.calls_to('Encoder::push') if _name(arg_desc(F, c, 1)) == lv and _name(arg_desc(F, c, 2)) == ty]
+        bad = [c for c in ps if not _conveys_ecn(F, arg_desc(F, c, 3))]
+        ctx.check(bool(ps) and not bad, 'd', 'ecn_conveyed_v4_and_v6', pm, (bad or ps or [pm])[0].where(), '%d %s push(es) of transmit.ecn' % (len(ps), ty),
+                  'the ECN codepoint of the transmit is not conveyed in %s: %s' % (ty, [D.render(arg_desc(F, c, 3))[:80] for c in bad] or 'no push'))
     pk = [c for c in constructions(F, 'libc::in_pktinfo', 'in_pktinfo', crate='quinn_udp') if c.body.id == pm.id]
     ctx.floor('d', 'in_pktinfo_literals', len(pk), 1)
     for c in pk:
@@ -212,11 +449,77 @@ def rule_e(ctx):
         ok = bool(p1) and all(path_avoiding(sn, p.succ if False else sn.succ[p.bb], {m.bb for m in sm}, errs) is not None for p in p1)
         ok = ok and all(path_avoiding(sn, sn.succ[s.bb], sn.return_blocks(), {x.bb for x in p1}) is None for _ in [0])
         ctx.check(ok, 'e', 'first_einval_retries_without_offload_metadata', sn, s.where(), 'set flag -> prepare_msg -> continue -> sendmsg', 'after the first EINVAL/EIO the message is not re-prepared and retried (the datagram would be lost)')
-    gs = [c for c in sn.calls() if short(c.f).endswith('::store') and D.has_field(arg_desc(F, c, 0), 'max_gso_segments')]
-    ctx.check(bool(gs) and all(D.has_const(arg_desc(F, c, 1), 1) for c in gs), 'e', 'offload_halted_on_error', sn, sn.where(), 'max_gso_segments.store(1)', 'GSO is not switched off after EIO/EINVAL')
-    kinds = {n_[2].split('::')[-1] for br in branches(F, sn) for n_ in walk(br.desc) if False}
-    wb = [c for c in sn.calls() if c.is_('io::Error::kind', 'Error::kind')]
-    ctx.check(bool(wb), 'e', 'error_kind_dispatch', sn, sn.where(), 'match e.kind() {Interrupted, WouldBlock, _}', 'send() no longer dispatches on the error kind')
+    smb = {m.bb for m in sm}
+    gs = [c for c in sn.calls() if c.bb in sn.live_blocks() and short(c.f).endswith('::store') and D.has_field(arg_desc(F, c, 0), 'max_gso_segments')]
+    ok = bool(gs) and all(arg_desc(F, c, 1)[:3] == ('const', 'int', '1') for c in gs)
+    # ... and the store is reached for EIO as well as for EINVAL (before the next sendmsg)
+    eno = _errno_edges(F, sn)
+    miss = [nm for nm, v in ERRNO.items() if not any(c.bb in sn.reachable_from(t, avoid=smb) for t in eno.get(v, ()) for c in gs)]
+    ctx.check(ok and not miss, 'e', 'offload_halted_on_error', sn, (gs[0].where() if gs else sn.where()), 'max_gso_segments.store(1) on Some(EIO) | Some(EINVAL)',
+              'GSO is not switched off after %s' % ('/'.join(miss) if ok else 'EIO/EINVAL (no store of 1)'))
+    # match e.kind(): Interrupted retries sendmsg (nothing returned, nothing re-prepared), WouldBlock returns Err(e)
+    kd = _kind_edges(F, sn)
+    errs = {c.bb for c in constructions(F, 'Result', 'Err', crate='quinn_udp') if c.body.id == sn.id}
+    msgs = []
+    ti, tw = kd.get('Interrupted', []), kd.get('WouldBlock', [])
+    if not ti:
+        msgs.append('no ErrorKind::Interrupted arm')
+    for t in ti:
+        if path_avoiding(sn, [t], sn.return_blocks(), smb) is not None or any(x.bb in sn.reachable_from(t, avoid=smb) for x in pm + se + gs):
+            msgs.append('ErrorKind::Interrupted does not simply retry sendmsg')
+    if not tw:
+        msgs.append('no ErrorKind::WouldBlock arm')
+    for t in tw:
+        if (smb & sn.reachable_from(t)) or path_avoiding(sn, [t], sn.return_blocks(), errs) is not None:
+            msgs.append('ErrorKind::WouldBlock is not returned to the caller as Err')
+    ctx.check(not msgs, 'e', 'error_kind_dispatch', sn, sn.where(), 'match e.kind() {Interrupted => retry, WouldBlock => Err(e), _}', 'send(): ' + '; '.join(msgs))
+
+
+# Linux errno values (patterns are lowered to integers in MIR) and the discriminants of std::io::ErrorKind in the std of the
+# pinned nightly the driver is built against (MIR switches on the raw discriminant)
+ERRNO = {'EIO': 5, 'EINVAL': 22}
+ERRKIND = {'WouldBlock': 13, 'Interrupted': 35}
+
+
+def _errno_edges(F, body):
+    """errno value -> target blocks taken when `e.raw_os_error()` is Some(errno): SwitchInt on the Some payload, or an
+    equality test against Some(<const>)"""
+    out = {}
+    for br in branches(F, body):
+        x = br.desc
+        if x[0] == 'field' and x[2] == '0' and x[1][0] == 'variant' and x[1][2] == 'Some' and _is_call(x[1][1], 'Error::raw_os_error', 'io::Error::raw_os_error'):
+            for v, t in br.edges:
+                if v is not None:
+                    out.setdefault(v, []).append(t)
+            continue
+        rel = relation_on(x, True)
+        if rel and rel[0] in ('Eq', 'Ne'):
+            for p, q in ((rel[1], rel[2]), (rel[2], rel[1])):
+                if D.has_call(p, 'Error::raw_os_error') and not D.has_call(q, 'Error::raw_os_error'):
+                    ks = [int(c[2]) for c in walk(q) if c[0] == 'const' and c[1] == 'int' and str(c[2]).lstrip('-').isdigit()]
+                    if len(ks) == 1:
+                        out.setdefault(ks[0], []).append(br.target(1 if rel[0] == 'Eq' else 0))
+    return out
+
+
+def _kind_edges(F, body):
+    """ErrorKind variant name -> target blocks taken when `e.kind()` is that variant: SwitchInt on the discriminant of
+    Error::kind(last_os_error()), or `e.kind() == io::ErrorKind::X`"""
+    out = {}
+    num = {v: k for k, v in ERRKIND.items()}
+    for br in branches(F, body):
+        x = br.desc
+        if x[0] == 'discr' and _is_call(x[1], 'Error::kind', 'io::Error::kind'):
+            for v, t in br.edges:
+                if v in num:
+                    out.setdefault(num[v], []).append(t)
+            continue
+        rel = relation_on(x, True)
+        if rel and rel[0] in ('Eq', 'Ne'):
+            for p, q in ((rel[1], rel[2]), (rel[2], rel[1])):
+                if _is_call(p, 'Error::kind', 'io::Error::kind') and q[0] == 'agg' and 'ErrorKind::' in q[2]:
+                    out.setdefault(q[2].rsplit('::', 1)[-1], []).append(br.target(1 if rel[0] == 'Eq' else 0))
+    return out
 
 
 def rule_f(ctx):
@@ -228,9 +531,23 @@ def rule_f(ctx):
     ok_str = any(D.has_field(arg_desc(F, c, 1), 'stride') and (D.has_call(arg_desc(F, c, 1), 'Ord::min') or D.has_call(arg_desc(F, c, 1), 'usize::min')) for c in st)
     ctx.check(ok_len and ok_str, 'f', 'batch_split_by_len_then_stride', ps, ps.where(), 'datagrams.split_to(meta.len); data.split_to(min(meta.stride, data.len()))', 'received batches are no longer split by meta.len and then meta.stride')
     h = ps.calls_to('quinn_proto::Endpoint::handle')
+    ctx.floor('f', 'handle_sites', len(h), 1)
+
+    def bases(v, fld):
+        """the values X such that `X.<fld>` occurs in v"""
+        return {x[1] for x in walk(v) if x[0] == 'field' and x[2] == fld}
     for c in h:
-        ok = D.has_field(arg_desc(F, c, 2), 'addr') and D.has_field(arg_desc(F, c, 3), 'dst_ip') and D.has_field(arg_desc(F, c, 4), 'ecn') and any(contains_site(arg_desc(F, c, 5), s) for s in st)
-        ctx.check(ok, 'f', 'piece_handed_with_its_metadata', ps, c.where(), 'handle(now, meta.addr, meta.dst_ip, meta.ecn, piece, ..)', 'a received piece is handed to the protocol with metadata that is not its own')
+        # the piece is data.split_to(min(M.stride, ..)) of datagrams.split_to(M.len) and addr / dst_ip / ecn are fields of the
+        # SAME metadata value M (the same loop item: same reaching definition, not another element of the array)
+        piece = arg_desc(F, c, 5)
+        inner = [x for x in st if is_site(piece, x)]
+        outer = [x for x in st if inner and is_site(arg_desc(F, inner[0], 0), x)]
+        ms = []
+        if inner and outer:
+            ms = [bases(arg_desc(F, outer[0], 1), 'len'), bases(arg_desc(F, inner[0], 1), 'stride'), bases(arg_desc(F, c, 2), 'addr'), bases(arg_desc(F, c, 3), 'dst_ip'), bases(arg_desc(F, c, 4), 'ecn')]
+        ok = bool(ms) and all(len(m) == 1 for m in ms) and len(set.union(*ms)) == 1
+        ok = ok and arg_desc(F, outer[0], 1) == ('field', next(iter(ms[0])), 'len') and arg_desc(F, c, 2) == ('field', next(iter(ms[2])), 'addr') and arg_desc(F, c, 3) == ('field', next(iter(ms[3])), 'dst_ip')
+        ctx.check(ok, 'f', 'piece_handed_with_its_metadata', ps, c.where(), 'handle(now, meta.addr, meta.dst_ip, meta.ecn, piece of meta.len / meta.stride, ..)', 'a received piece is handed to the protocol with metadata that is not its own (addr / dst_ip / ecn / len / stride do not come from one RecvMeta value)')
     ut = ctx.qfn('quinn::udp_transmit') if F.try_fn('quinn::udp_transmit', 'quinn') else ctx.qfn('udp_transmit')
     cons = [c for c in constructions(F, 'quinn_udp::Transmit', 'Transmit', crate='quinn') if c.body.id == ut.id]
     d = describer(F, ut)
@@ -247,6 +564,165 @@ def rule_f(ctx):
     ctx.check(ok, 'f', 'transmit_converted_field_for_field', ut, ut.where(), 'destination, ecn, contents, segment_size, src_ip copied', 'udp_transmit no longer copies every Transmit field')
 
 
+# Linux ABI value of the socket-level option (SOL_UDP, UDP_SEGMENT) (udp(7)); setsockopt wrappers of quinn-udp with the
+# argument layout (socket, level, name, value)
+UDP_SEGMENT_OPT = (17, 103)
+SOCKOPT_SETTERS = ('imp::set_socket_option', 'set_socket_option', 'imp::set_socket_option_supported', 'set_socket_option_supported')
+
+
+def _int_const(x):
+    return int(x[2]) if isinstance(x, tuple) and x and x[0] == 'const' and x[1] == 'int' and str(x[2]).lstrip('-').isdigit() else None
+
+
+def _roots(x):
+    return {y[1] for y in walk(x) if y[0] == 'param'}
+
+
+def _same_socket(a, b):
+    return a == b or (bool(_roots(a)) and _roots(a) == _roots(b))
+
+
+def _strip_try(x):
+    while isinstance(x, tuple) and x and x[0] == 'call' and x[1].endswith('Try>::branch') and len(x[3]) == 1:
+        x = x[3][0]
+    return x
+
+
+def _strip_ok_payload(x):
+    """x, or the value X when x is the Ok / Continue / Some payload of (a `?` of) X"""
+    while True:
+        y = _strip_try(x)
+        if isinstance(y, tuple) and y and y[0] == 'field' and y[2] == '0' and y[1][0] == 'variant' and y[1][2] in ('Ok', 'Continue', 'Some'):
+            y = y[1][1]
+        if y == x:
+            return x
+        x = y
+
+
+def _not_set_edges(F, body, site, sets_when_true):
+    """CFG edges (from, to) of `body` on which the setsockopt wrapper call `site` is known to have FAILED (the option was not
+    changed): the non-Ok edges of a switch on the discriminant of its result (directly, through `?`, `.ok()` / `.err()`) and the
+    false edges of `.is_ok()` / `.is_some()` tests (true edges of `.is_err()` / `.is_none()`); for the io::Result<bool> wrapper
+    also the false edge of the unwrapped bool."""
+    def res(x):
+        return is_site(_strip_try(x), site)
+
+    def opt(x, method):     # Result::ok(S) / Result::err(S)
+        return _is_call(x, 'Result::' + method) and len(x[3]) == 1 and res(x[3][0])
+    out = set()
+    for br in branches(F, body):
+        x = br.desc
+        good = None         # target taken when the option was set
+        if x[0] == 'discr':
+            if res(x[1]):
+                good = br.target(0)                              # Ok / Continue = 0
+            elif opt(x[1], 'ok'):
+                good = br.target(1)                              # Some = 1
+            elif opt(x[1], 'err'):
+                good = br.target(0)                              # None = 0
+        else:
+            inner, neg = peel_not(x)
+            while _is_call(inner, '<bool as Not>::not') and len(inner[3]) == 1:
+                inner, n2 = peel_not(inner[3][0])
+                neg = (not neg) ^ n2
+            pos = None
+            if inner[0] == 'call' and len(inner[3]) == 1:
+                a = inner[3][0]
+                if _is_call(inner, 'Result::is_ok') and res(a) or _is_call(inner, 'Option::is_some') and opt(a, 'ok') or _is_call(inner, 'Option::is_none') and opt(a, 'err'):
+                    pos = True
+                elif _is_call(inner, 'Result::is_err') and res(a) or _is_call(inner, 'Option::is_none') and opt(a, 'ok') or _is_call(inner, 'Option::is_some') and opt(a, 'err'):
+                    pos = False
+            if pos is None and sets_when_true and is_site(_strip_ok_payload(inner), site) and _strip_ok_payload(inner) != inner:
+                pos = True
+            if pos is not None:
+                good = br.target(1 if pos != neg else 0)
+        if good is not None:
+            out |= {(br.bb, t) for _, t in br.edges if t != good}
+    return out
+
+
+def rule_g(ctx):
+    """Socket-wide segmentation stays off: a datagram sent WITHOUT an UDP_SEGMENT control message (d/ no_segmentation_for_
+    single_segment) is one datagram only while the socket option (SOL_UDP, UDP_SEGMENT) is 0.  Every setsockopt of that option
+    to a value that is not the literal 0 (the GSO support probe) is therefore followed — on every path from its success edge
+    to a normal return of the function, or of its callers when the function hands the socket back un-reset — by a setsockopt of
+    the same option to 0 on the same socket."""
+    F = ctx.facts
+    inst = 'socket_wide_segmentation_reset_after_probe'
+    sites = []          # (call, socket, value)
+    for b in F.bodies.values():
+        if b.crate != 'quinn_udp':
+            continue
+        live = b.live_blocks()
+        for c in b.calls():
+            if c.bb not in live or len(c.args) < 2:
+                continue
+            ds = [arg_desc(F, c, i) for i in range(len(c.args))]
+            at = [i for i in range(len(ds) - 1) if (_int_const(ds[i]), _int_const(ds[i + 1])) == UDP_SEGMENT_OPT and ds[i + 1][3].split('::')[-1] in ('UDP_SEGMENT', '')]
+            if not at or c.is_('Encoder::push'):
+                continue
+            if c.is_(*SOCKOPT_SETTERS) and at == [1] and len(ds) == 4:
+                sites.append((c, ds[0], ds[3]))
+            else:
+                ctx.bad('g', inst + '/unclassified_setter', b, c.where(), '(SOL_UDP, UDP_SEGMENT) is handed to %s, which is not a known setsockopt wrapper: is the socket-wide segment size left at 0?' % short(c.f))
+    is_zero = lambda v: _int_const(v) == 0
+    probes = [x for x in sites if not is_zero(x[2])]
+    ctx.floor('g', 'gso_probe_sites', len(probes), 1)
+
+    def always_resets(g, k, depth=0):
+        """every path entry -> return of g passes a reset of UDP_SEGMENT on the socket given as parameter local k"""
+        rb = {c.bb for c, s, v in sites if c.body.id == g.id and is_zero(v) and s[0] == 'param' and s[1] == k}
+        if depth < 2:
+            rb |= helper_resets(g, ('param', k, g.locals[k][1]), depth + 1)
+        rets = [r for r in g.return_blocks() if r in g.live_blocks()]
+        return bool(rb) and bool(rets) and path_avoiding(g, [0], rets, rb) is None
+
+    def helper_resets(b, sock, depth=0):
+        out = set()
+        for c in b.calls():
+            g = F.bodies.get(c.f)
+            if g is None or g.crate != 'quinn_udp' or g.kind != 'fn' or c.is_(*SOCKOPT_SETTERS) or c.bb not in b.live_blocks():
+                continue
+            for i in range(min(len(c.args), g.argc)):
+                if _same_socket(arg_desc(F, c, i), sock) and always_resets(g, i + 1, depth):
+                    out.add(c.bb)
+        return out
+
+    def escapes(c, sock, fail_edges):
+        """return blocks of c.body reachable after the call c with the option still set"""
+        b = c.body
+        resets = {r.bb for r, s, v in sites if r.body.id == b.id and is_zero(v) and _same_socket(s, sock)} | helper_resets(b, sock)
+        reach = b.reachable_strict(c.bb, avoid=resets - {c.bb}, avoid_edges=fail_edges)
+        return [r for r in b.return_blocks() if r in reach]
+
+    for c, sock, val in probes:
+        b = c.body
+        chain = [b.short]
+        bflag = c.is_('set_socket_option_supported', 'imp::set_socket_option_supported')     # io::Result<bool>: Ok(true) = set
+        work = [(c, sock, _not_set_edges(F, b, c, bflag), 0)]
+        leak = None
+        while work and leak is None:
+            cc, s, fe, depth = work.pop()
+            esc = escapes(cc, s, fe)
+            if not esc:
+                continue
+            g = cc.body
+            callers = [x for x in F.callers_of(g.id, crate='quinn_udp') if x.f == g.id] if g.kind == 'fn' else []
+            if s[0] == 'param' and 1 <= s[1] <= g.argc and callers and depth < 2:
+                # the function returns with the option still set on its caller's socket: the obligation moves to every caller
+                # (a function returning the wrapper's result unchanged also hands on its success / failure edges)
+                rets = ret_descs(F, g)
+                fwd = bool(rets) and all(is_site(rd, cc) for _, rd in rets)
+                for x in callers:
+                    chain.append(x.body.short)
+                    work.append((x, arg_desc(F, x, s[1] - 1), _not_set_edges(F, x.body, x, bflag) if fwd else set(), depth + 1))
+            else:
+                leak = (g, esc)
+        ctx.check(leak is None, 'g', inst, b, c.where(), 'setsockopt(UDP_SEGMENT, %s) is followed by setsockopt(UDP_SEGMENT, 0) on the same socket on every successful path to a return' % D.render(val)[:40],
+                  'the socket-wide option UDP_SEGMENT is set to %s and %s can return without setting it back to 0 (%s): every later send without an UDP_SEGMENT control message — a single-datagram transmit — longer than that value is cut into several datagrams by the kernel' % (
+                      D.render(val)[:40], leak[0].short if leak else '', ' <- '.join(chain)))
+
+
 def run(ctx):
     rule_a(ctx)
     rule_b(ctx)
@@ -254,4 +730,5 @@ def run(ctx):
     rule_d(ctx)
     rule_e(ctx)
     rule_f(ctx)
+    rule_g(ctx)
     ctx.assume('Linux x86-64 only: cfg(windows) / apple / bsd code paths are not compiled and therefore not analysed')
